@@ -61,6 +61,7 @@ type Net struct {
 	lastDeliv     map[string]time.Time
 	blocked       map[[2]string]bool // directed pair blocked (partition)
 	udpBlocked    map[[2]string]bool // datagrams only (streams still connect)
+	unreach       map[string]bool    // destination has no route: the local stack refuses sends/dials with an error
 	packets       []*PacketEvent
 	streams       []*StreamEvent
 	OnPacket      []func(ev *PacketEvent)
@@ -131,6 +132,21 @@ func (n *Net) IsBlocked(from, to string) bool {
 	n.mu.Lock()
 	defer n.mu.Unlock()
 	return n.blocked[[2]string{from, to}]
+}
+
+// SetUnreachable makes every send or dial towards addr fail locally with ENETUNREACH (as when the
+// route to a crashed host is withdrawn), instead of vanishing silently.
+func (n *Net) SetUnreachable(addr string, on bool) {
+	n.mu.Lock()
+	defer n.mu.Unlock()
+	if n.unreach == nil {
+		n.unreach = map[string]bool{}
+	}
+	if on {
+		n.unreach[addr] = true
+	} else {
+		delete(n.unreach, addr)
+	}
 }
 
 func (n *Net) ClearBlocks() {
@@ -262,6 +278,15 @@ func (e *Endpoint) WriteToAddress(b []byte, a memberlist.Address) (time.Time, er
 			return now, err
 		}
 	}
+	n.mu.Lock()
+	noRoute := n.unreach[a.Addr]
+	n.mu.Unlock()
+	if noRoute {
+		ev.Dropped = true
+		ev.NoRoute = true
+		n.record(ev)
+		return now, &net.OpError{Op: "write", Net: "udp", Addr: simAddr{a.Addr}, Err: os.NewSyscallError("sendto", syscall.ENETUNREACH)}
+	}
 	e.WritesOK.Add(1)
 	n.mu.Lock()
 	dst := n.eps[a.Addr]
@@ -366,6 +391,12 @@ func (e *Endpoint) DialAddressTimeout(a memberlist.Address, timeout time.Duratio
 	if e.closed.Load() {
 		e.DialsClosed.Add(1)
 		return nil, &net.OpError{Op: "dial", Net: "tcp", Err: net.ErrClosed}
+	}
+	n.mu.Lock()
+	noRoute := n.unreach[a.Addr]
+	n.mu.Unlock()
+	if noRoute {
+		return nil, &net.OpError{Op: "dial", Net: "tcp", Addr: simAddr{a.Addr}, Err: os.NewSyscallError("connect", syscall.ENETUNREACH)}
 	}
 	// Like a kernel, retransmit the SYN with exponential backoff (1 s, 2 s, 4 s, ...)
 	// until the peer becomes reachable or the caller's timeout expires.
